@@ -920,4 +920,8 @@ def run(P, R, tier):
     c09.dotted_quad_guard(P, Remap(R, {'C09.GRD.2': 'C06.GRD.5'}))
     # the "already sent" mask covers every slot
     rules.narrowing_fields(P, R, 'C06.WID.1', ('modules/iauth_core.c', 'modules/iauth_xquery.c', 'modules/iauth_class.c'))
+    # "the data its protocol needs is known": the ident prerequisite is marked known only when an ident arrived or the
+    # user info that stands in for it has
+    from . import c03 as _c03
+    _c03.blank_ident(P, Remap(R, {'C03.GRD.3': 'C06.GRD.8'}))
     return EXPLANATION, ASSUMPTIONS
